@@ -3,10 +3,10 @@ from props import Prop, Stream, reg
 reg(Prop('C03', [
     Stream('c03.forms', 20000, 1500000, 'model',
            exhaustive='every known form x version 2-5 x format x address size 1/2/4/8 x byte order x (byte-string pool + spec-encoded boundary data, exact / trailing byte / truncated); DW_FORM_indirect depth 1-3 to every known form; every unknown form code 0..0xffff; data4/data8 x names 0..0x8f x version 1-6 x format'),
-    Stream('c03.lists', 60000, 3000000, 'model',
+    Stream('c03.lists', 40000, 3000000, 'model',
            exhaustive='huge block lengths (2^64-1 .. 2^32) in every position before fixed forms'),
     Stream('c03.size', 1, 1000000, 'model',
-           exhaustive='quick: every form code 0..0xffff x 4 encodings, known forms x version 1-6 x format x 8 address sizes; thorough: every form code x 32 encodings'),
+           exhaustive='quick: every form code 0..0xffff x 2 encodings, known forms x version 1-6 x format x 8 address sizes; thorough: every form code x 32 encodings'),
     Stream('c03.value', 1, 1000000, 'model',
            exhaustive='quick: names 0..0x8f and 0x2100..0x213f x every parser-producible raw kind x boundary payloads, every other name 0..0xffff x 2 kinds; thorough: every name x every kind'),
     Stream('c03.helpers', 20000, 1000000, 'model',
